@@ -10,14 +10,15 @@ DRIVER = "drivers/C06.lean"
 GEN_MODULES = ["Port"]
 THEOREMS = ["lt_two_pow_bitLen", "filter_range_succ", "colLoop_spec", "columns_spec", "negative_mask_ValueError",
             "signal_count_popcount", "setBits_lt", "pick_little", "pick_big", "line_data_partial", "setBits_full",
-            "line_data_full", "mask_too_wide_rejected", "signal_bit", "port_width_of_mask"]
+            "line_data_full", "mask_too_wide_rejected", "signal_bit", "port_width_of_mask",
+            "gen_columns_eq_model", "gen_columns_spec", "gen_negative_mask_ValueError"]
 RULE = ("8-bit ports: every sample value x every mask 0..255 (and masks beyond the width) x both bit orders, "
         "exhaustively; 16-bit: all masks on a value sample (all 65 536 values on selected masks in thorough); 32-bit: "
         "sparse/high-bit masks; inputs as list, native, byte-swapped ('>u2','>u4'), strided and read-only arrays, "
         "from_ports rows incl. column-sliced sources; three state dtypes; start_index/sample_count windows; each "
         "compared with the property's bit formula (oracle) and with Model/Port.lean; non-trivial = mask != 0")
-TRUSTED = ["hand model NiVerif/Model/Port.lean of _mask_to_column_indices / port_to_line_data / from_port (bit_mask and "
-           "_get_port_dtype are regenerated); NumPy ascontiguousarray/view/unpackbits/fancy indexing are collapsed to "
+TRUSTED = ["hand model NiVerif/Model/Port.lean of port_to_line_data / from_port (bit_mask, _get_port_dtype and the loop of "
+           "_mask_to_column_indices are regenerated; gen_columns_eq_model proves the model's loop equal to the generated one); NumPy ascontiguousarray/view/unpackbits/fancy indexing are collapsed to "
            "'a function of the integer values' and exercised by the correspondence"]
 ASSUMPTIONS = ["the model consumes integer sample values; independence from byte order / strides is established by "
                "running the real code on every representation (tie), not by a theorem"]
@@ -183,6 +184,13 @@ def run(ctx):
     mv = [0, 1, 255, 256, 65535, 65536, 2 ** 32 - 1, 2 ** 32, 2 ** 40, -1, -256, 0x1FF, 0xDEADBEEF] + \
          [rng.randrange(1 << 34) for _ in range(200)]
     tvc += [("Port._get_port_dtype", [m], (lambda m=m: _get_port_dtype(m).itemsize * 8), True) for m in mv]
+    # the generated `while mask != 0` loop (tier T8) against the function it was generated from
+    from nitypes.waveform._digital._port import _mask_to_column_indices
+    for m in [0, 1, 2, 0xF, 0x100, 0xDEADBEEF, 0xFFFFFFFF, 1 << 40, -1, -5] + [rng.randrange(1 << rng.choice([4, 8, 16, 32, 33])) for _ in range(120)]:
+        for w in (8, 16, 32, 3):
+            for big in (1, 0):
+                tvc.append(("Port._mask_to_column_indices", [m, w, big],
+                            (lambda m=m, w=w, big=big: _mask_to_column_indices(m, w, "big" if big else "little")), True))
     ctx.extra["translation_validation_cases"] = translation_validation(ctx, tvc)
     res = ctx.model([q for q, _ in reqs])
     if res is not None:
